@@ -514,6 +514,62 @@ def _r086(ctx: Ctx) -> None:
            facts=[repr(list(a)) for a in v] if isinstance(v, tuple) else repr(v))
 
 
+def weights_vs_distribution(ctx: Ctx, rule: str) -> None:
+    """get_weights AS RESOLVED on the concrete noise class (an override included) against the per-qubit distribution
+    of the same object: w_x[i] = -log((p_X+p_Y+eps)/(1-p_X-p_Y+eps)) with the DEFORMED probabilities of qubit i, same
+    for Z.  Bounded partial evaluation on a three-qubit abstract code (one Hadamard-deformed qubit, one XY-deformed,
+    one untouched), a generic direction and three ways of stating the deformation."""
+    import math
+    m = ctx.model
+    ci = m.cls('PauliErrorModel')
+    mi = ci.module
+    rd = ci.find_method('probability_distribution')
+    rw = ci.find_method('get_weights')
+    ctx.need(rd is not None and rw is not None, rule, site_of(mi, ci.node), 'probability_distribution / get_weights not found')
+    tables = {'q0': HADAMARD, 'q1': XY, 'q2': IDENT}
+    code = Obj(m.cls('StabilizerCode'), 'code')
+    code.fields['n'] = 3
+    code.fields['qubit_coordinates'] = ['q0', 'q1', 'q2']
+    rx, ry, rz, p, eps = 0.5, 0.3, 0.2, 0.3, 1e-20
+    site = site_of(rw[0].module, rw[1])
+    class _HConcrete(_HNoise):
+        def call(self, it, func, args, kwargs, node, env):
+            if isinstance(func, Ext) and func.name == 'numpy.isclose':
+                return bool(np.isclose(*args, **kwargs))          # concrete numbers here: the constructor guard is decided
+            return super().call(it, func, args, kwargs, node, env)
+    for label, name, kwargs in (('undeformed', None, None), ('deformation named, no keyword arguments', 'A', None),
+                                ('deformation named with an axis', 'A', {'deformation_axis': 'x'})):
+        hooks = _HConcrete(tables)
+        it = Interp(m, hooks)
+
+        def thunk():
+            em = it.instantiate(ci, [rx, ry, rz, name, kwargs], {}, rd[1])
+            dist = it.call_closure(Closure(rd[1], rd[0].module, rd[0]), [code, p], {}, rd[1], self_obj=em)
+            w = it.call_closure(Closure(rw[1], rw[0].module, rw[0]), [code, p], {}, rw[1], self_obj=em)
+            return dist, w
+        outs = guard(rule, rw[0].module, rw[1])(lambda: it.explore(thunk))
+        rets = [o for o in outs if o.kind == 'return']
+        ctx.need(len(rets) == 1 and len(outs) == 1, rule, site, f'get_weights ({label}): paths {outs!r}')
+        dist, w = rets[0].value
+        bad = None
+        try:
+            pi_, px_, py_, pz_ = [np.asarray(a, dtype=float) for a in dist]
+            wx, wz = [np.asarray(a, dtype=float) for a in w]
+            for i in range(3):
+                for sec, got, flip in (('X', wx[i], px_[i] + py_[i]), ('Z', wz[i], pz_[i] + py_[i])):
+                    want = -math.log((flip + eps) / (1 - flip + eps))
+                    if abs(got - want) > 1e-9:
+                        bad = (f'qubit q{i} (table {tables["q%d" % i]}): weight for {sec} flips is {got:.6f}, the deformed '
+                               f'channel of that qubit has P({sec} flip) = {flip:.3f}, i.e. weight {want:.6f}')
+                        break
+                if bad:
+                    break
+        except (TypeError, ValueError):
+            raise AnalysisError(rule, site, f'get_weights ({label}): values not tracked ({dist!r}, {w!r})')
+        ctx.ob(rule, site, f'{rw[0].name}.get_weights = -log-odds of the per-qubit flip marginals of the same model ({label})',
+               bad is None, bad or '', key=f'get_weights|values[{label}]')
+
+
 # ------------------------------------------------------------------- R08.8
 
 def _r088(ctx: Ctx) -> None:
